@@ -816,6 +816,9 @@ def _fmt_norm(f):
             out.append(num + ch)
             num = ""
         else:
+            # (standard sizes: L is I and l is i - four bytes either way)
+            if order != "native":
+                ch = {"L": "I", "l": "i"}.get(ch, ch)
             out.extend([ch] * (int(num) if num else 1))
             num = ""
     return order, tuple(out)
